@@ -37,6 +37,7 @@ import (
 	"fmt"
 	"math/rand"
 	"net/http"
+	"net/http/httptest"
 	"sort"
 	"strconv"
 	"strings"
@@ -44,6 +45,7 @@ import (
 	"testing"
 	"time"
 
+	jose "github.com/go-jose/go-jose/v3"
 	"github.com/oauth2-proxy/oauth2-proxy/v7/pkg/clock"
 )
 
@@ -76,6 +78,8 @@ type c04Cfg struct {
 	StaticKeys      bool // public-key files: the kid of a token plays no role
 	SkipNonce       bool
 	Redis           bool
+	ExtraIss        string // issuer string of the extra JWT issuer of this configuration ("" = the second rig IdP)
+	BearerOnly      bool   // configuration differs from "disc" only on the bearer path
 	P               *vfProxy
 }
 
@@ -83,7 +87,22 @@ func (c *c04Cfg) defaultClaimNames() bool { return c.EmailClaim == "email" && c.
 
 const c04ExtraAudience = "aud2"
 
+// c04JWKSOnlyIssuer: an issuer WITHOUT a discovery document (404) that publishes the rig's signing key under
+// /.well-known/jwks.json — the documented fallback form of an --extra-jwt-issuers entry.
+func c04JWKSOnlyIssuer(w *vfWorld) string {
+	mux := http.NewServeMux()
+	mux.HandleFunc("/.well-known/jwks.json", func(rw http.ResponseWriter, _ *http.Request) {
+		rw.Header().Set("Content-Type", "application/json")
+		_ = json.NewEncoder(rw).Encode(jose.JSONWebKeySet{Keys: []jose.JSONWebKey{{Key: &vfKeyA.PublicKey, KeyID: "k1", Algorithm: "RS256", Use: "sig"}}})
+	})
+	mux.HandleFunc("/", func(rw http.ResponseWriter, r *http.Request) { http.NotFound(rw, r) })
+	srv := httptest.NewServer(mux)
+	w.OnClose(func() { srv.CloseClientConnections(); srv.Close() })
+	return srv.URL
+}
+
 func c04Configs(w *vfWorld, idp2 *vfIdP, thorough bool) []*c04Cfg {
+	jwksOnly := c04JWKSOnlyIssuer(w)
 	iss := w.IdP.Issuer
 	pemA := w.File("c04-issuer-key.pem", string(vfPubPEM(&vfKeyA.PublicKey)))
 	common := []string{"--skip-jwt-bearer-tokens=true", "--cookie-refresh=1m", "--pass-access-token=true", "--pass-authorization-header=true"}
@@ -113,6 +132,10 @@ func c04Configs(w *vfWorld, idp2 *vfIdP, thorough bool) []*c04Cfg {
 			c.Verifiers = append(c.Verifiers, c04Verifier{Issuer: idp2.Issuer, ClientID: c04ExtraAudience, Extra: true})
 		}, "--extra-jwt-issuers="+idp2.Issuer+"="+c04ExtraAudience),
 		mk("skip-nonce", func(c *c04Cfg) { c.SkipNonce = true }, "--insecure-oidc-skip-nonce=true"),
+		mk("extra-issuer-jwks-only", func(c *c04Cfg) {
+			c.ExtraIss, c.BearerOnly = jwksOnly, true
+			c.Verifiers = append(c.Verifiers, c04Verifier{Issuer: jwksOnly, ClientID: c04ExtraAudience, Extra: true})
+		}, "--extra-jwt-issuers="+jwksOnly+"="+c04ExtraAudience),
 	}
 	if thorough {
 		cfgs = append(cfgs,
@@ -138,11 +161,11 @@ func (s c04Spec) String() string {
 
 var (
 	c04SigVals   = []string{"right", "right-nokid", "right-otherkid", "foreign-samekid", "foreign-otherkid", "foreign-nokid", "none", "none-junksig", "hs256-pem", "hs256-der", "es256", "badsig", "sig-of-other"}
-	c04IssVals   = []string{"exact", "slash", "other", "missing", "case", "suffix", "number", "extra"}
+	c04IssVals   = []string{"exact", "slash", "other", "missing", "case", "suffix", "number", "extra", "extra-slash", "extra-suffix", "extra-path"}
 	c04AudVals   = []string{"cid", "[cid]", "[other,cid]", "extra", "[other,extra]", "other", "[]", "missing", "number", "object", "[1]", "null", "cid-prefix", "CID", "extra-issuer-aud", "azp=cid", "azp=[other,cid]", "azp=other,aud=cid", "azp=number", "azp=[1,2]", "azp=object", "azp=[]", "azp=cid,aud=missing", "azp=[cid,1]", "empty-string"}
 	c04ExpVals   = []string{"+1h", "+5m", "-1h", "-90s", "missing", "string"}
 	c04EVVals    = []string{"absent", "true", "false", "str-false"}
-	c04ClaimVals = []string{"full", "no-email", "no-pu", "no-groups", "minimal", "unicode", "long", "groups-scalar"}
+	c04ClaimVals = []string{"full", "no-email", "no-pu", "no-groups", "minimal", "unicode", "long", "groups-scalar", "groups-empty-list", "groups-empty-string", "pu-empty", "email-empty", "all-empty"}
 )
 
 // c04Baseline: a token that is valid under the configuration (for the primary issuer, or for the extra JWT issuer).
@@ -265,6 +288,9 @@ func c04Claims(s c04Spec, cfg *c04Cfg, idp2Issuer string, base map[string]interf
 		c["iat"] = time.Now().Unix()
 	}
 	iss := cfg.Verifiers[0].Issuer
+	if cfg.ExtraIss != "" {
+		idp2Issuer = cfg.ExtraIss
+	}
 	switch s.Iss {
 	case "exact":
 		c["iss"] = iss
@@ -281,6 +307,12 @@ func c04Claims(s c04Spec, cfg *c04Cfg, idp2Issuer string, base map[string]interf
 		c["iss"] = 5
 	case "extra":
 		c["iss"] = idp2Issuer
+	case "extra-slash":
+		c["iss"] = idp2Issuer + "/"
+	case "extra-suffix":
+		c["iss"] = idp2Issuer + ".evil.test"
+	case "extra-path":
+		c["iss"] = idp2Issuer + "/.well-known/jwks.json"
 	}
 	xa := "xa1"
 	switch s.Aud {
@@ -380,6 +412,19 @@ func c04Claims(s c04Spec, cfg *c04Cfg, idp2Issuer string, base map[string]interf
 		delete(c, cfg.GroupsClaim)
 	case "groups-scalar":
 		c[cfg.GroupsClaim] = "solo-" + tag
+	// present but empty: the claim IS the token's claim — the profile endpoint is for claims the token lacks
+	case "groups-empty-list":
+		c[cfg.GroupsClaim] = []string{}
+	case "groups-empty-string":
+		c[cfg.GroupsClaim] = ""
+	case "pu-empty":
+		c["preferred_username"] = ""
+	case "email-empty":
+		c[cfg.EmailClaim] = ""
+	case "all-empty":
+		c[cfg.GroupsClaim] = []string{}
+		c["preferred_username"] = ""
+		c[cfg.EmailClaim] = ""
 	}
 	return c
 }
@@ -699,6 +744,17 @@ func c04Expected(t c04Token, cfg *c04Cfg, v c04Verifier, path string, profile ma
 		return f
 	}
 	e := c04Expect{User: field("sub", false), Email: field(emailClaim, false), Groups: field(groupsClaim, true), PU: field("preferred_username", false)}
+	if e.Email.FromToken && e.Email.Must == "" {
+		// the token says: e-mail "". A session never has an empty e-mail: the login callback refuses it, a refresh keeps
+		// the previous e-mail, a bearer session uses the user id. What it may never be is the PROFILE endpoint's value.
+		switch path {
+		case "refresh":
+			e.Email = c04Field{May: []string{prevEmail}}
+		case "bearer":
+			e.Email = c04Field{May: []string{"", e.User.Must}}
+		}
+		return e
+	}
 	if path == "refresh" && !e.Email.FromToken {
 		may := []string{prevEmail}
 		for _, m := range e.Email.May {
@@ -899,7 +955,7 @@ func (r *c04Runner) judge(cfg *c04Cfg, path string, s c04Spec, hdr string, t c04
 		run.Count("ref_accept_"+path, 1)
 		if !session {
 			// callback without any e-mail (token and profile): the provider refuses the login — not decided by the statement
-			if path == "callback" && !c04Expected(t, cfg, cfg.Verifiers[ref.Verifier], path, profile, prevEmail).Email.FromToken && cfg.SkipProfile {
+			if ex := c04Expected(t, cfg, cfg.Verifiers[ref.Verifier], path, profile, prevEmail).Email; path == "callback" && ((!ex.FromToken && cfg.SkipProfile) || (ex.FromToken && ex.Must == "")) {
 				run.Count("callback_without_email_refused", 1)
 				return
 			}
@@ -1375,9 +1431,9 @@ func (r *c04Runner) temporal(cfgs []*c04Cfg) {
 
 func TestVerif_C04(t *testing.T) {
 	run := vfNewRun(t, "C04", "exploration")
-	run.SetRule("token grid = signature (13 variants) x iss (8) x audience shape incl. custom audience claim (25) x exp (6) x email_verified (4) x claim set (8): " +
+	run.SetRule("token grid = signature (13 variants) x iss (11) x audience shape incl. custom audience claim (25) x exp (6) x email_verified (4) x claim set (13, incl. present-but-empty claims): " +
 		"every single deviation from a valid token, (thorough) every pair of deviations, plus a seeded random sample of combinations; on the callback, refresh and bearer " +
-		"(4 Authorization variants, incl. extra JWT issuer) paths; per configuration kind (discovery / JWKS URL / key file / extra audiences / audience claims / allow-unverified / custom claims / user-id-claim / no profile / extra issuer / skip-nonce, cookie and Redis store). " +
+		"(4 Authorization variants, incl. extra JWT issuer) paths; per configuration kind (discovery / JWKS URL / key file / extra audiences / audience claims / allow-unverified / custom claims / user-id-claim / no profile / extra issuer with and without discovery document / skip-nonce, cookie and Redis store). " +
 		"cell = (path, configuration, which clause of V is the ONLY failing one + its variant) or (path, configuration, valid, audience shape, claim set); multi-failure cases are trivial. " +
 		"Temporal pairs: a token living 3-5 s is presented while valid and the same raw token again 1.5 s after its exp (bearer, per verifier; and through ValidateSession of a stale cookie session without refresh token)")
 	run.Assume("RSA verification of the reference uses crypto/rsa of the standard library", "the fake provider signs with one RSA key (kid k1); the extra issuer publishes the same key, so only iss/aud separate the two verifiers",
@@ -1405,6 +1461,9 @@ func TestVerif_C04(t *testing.T) {
 		// pairs of deviations: thorough everywhere; quick only on the cheap bearer path of one configuration
 		cbSpecs := c04Specs(rng, base, thorough && (ci%2 == 1 || ci == 0), run.Env.Pick(12, 150))
 		rfSpecs := c04Specs(rng, base, thorough && ci%2 == 0, run.Env.Pick(8, 100))
+		if cfg.BearerOnly {
+			cbSpecs, rfSpecs = cbSpecs[:1], rfSpecs[:1]
+		}
 		bePairs := thorough || cfg.Name == "audclaim-azp+aud"
 		beSpecs := c04Specs(rng, base, bePairs, run.Env.Pick(30, 400))
 		if len(cfg.Verifiers) > 1 {
